@@ -345,6 +345,14 @@ class Doc(object):
 def needed(plan, root):
     """paths of nodes that must be present because an included node lies below them"""
     inc = set(plan.get('include', ()))
+    exact = set()
+    for p in list(inc):
+        if p.startswith('#'):
+            inc.discard(p)
+            node = G.segments(root)[int(p[1:])]
+            exact.add(id(node))
+            inc.add(node.parent.path)
+    plan['_exact'] = exact
     inc |= set(plan.get('repeat', {}).keys())
     inc |= set(f[0] for f in plan.get('fill', ()))
     out = set()
@@ -360,10 +368,10 @@ def emit(n, plan, need, doc, lstack, counts, force=False):
     if n.kind == 'seg':
         if n.usage == 'N':
             return
-        k = plan.get('repeat', {}).get(n.path, 1 if (n.usage == 'R' or n.path in need or plan.get('all') or force) else 0)
+        k = plan.get('repeat', {}).get(n.path, 1 if (n.usage == 'R' or n.path in need or id(n) in plan.get('_exact', ()) or plan.get('all') or force) else 0)
         if force:
             k = 1      # the segment that opens a loop instance occurs exactly once in it
-        if k > G.maxrep(n):
+        if k > G.maxrep(n) and not plan.get('overflow'):
             raise Ungeneratable('repeat %d > max %d at %s' % (k, G.maxrep(n), n.path))
         for _ in range(k):
             doc.segs.append(mkseg(n, plan)); doc.nodes.append(n); doc.lpaths.append(tuple(lstack))
@@ -417,7 +425,7 @@ def build(entry, plan):
             L2 = L1 + [('/ISA_LOOP/GS_LOOP', counts['/ISA_LOOP/GS_LOOP'])]
             doc.segs.append(mkseg(gs_seg, plan)); doc.nodes.append(gs_seg); doc.lpaths.append(tuple(L2))
             for s in range(plan.get('sets', 1)):
-                p2 = plan if (s == 0 and g == 0 and i == 0) else dict(plan, include=(), repeat={}, fill=(), all=False, fill_all=False)
+                p2 = plan if (s == 0 and g == 0 and i == 0) else dict(plan, include=(), repeat={}, fill=(), all=False, fill_all=False, _exact=())
                 n2 = need if p2 is plan else set()
                 counts[st_loop.path] = counts.get(st_loop.path, 0) + 1
                 L3 = L2 + [(st_loop.path, counts[st_loop.path])]
